@@ -214,7 +214,18 @@ pub async fn run_op2(ctx: &Ctx, op: AOp, info: &Rc<TaskInfo>, handle: Handle) {
             let t = take_chan(ctx, op.a, |c| matches!(c, Chan::UnclaimedSender(..) | Chan::UnclaimedReceiver(..)));
             match t {
                 Some((_, Chan::UnclaimedSender(u, tag))) => {
-                    let r = blocked(info, "UnclaimedSender::claim", true, u.claim()).await;
+                    let r = if op.d % 8 == 7 && !ctx.no_cancel.get() {
+                        // Cancel the claim while it is in flight.
+                        match CancelAfter::new(u.claim(), 1 + (op.d >> 3) % 2).await {
+                            Some(r) => r,
+                            None => {
+                                ctx.probe("claim-cancelled");
+                                return;
+                            }
+                        }
+                    } else {
+                        blocked(info, "UnclaimedSender::claim", true, u.claim()).await
+                    };
                     match r {
                         Ok(s) => {
                             ctx.probe("claim-ok");
@@ -231,7 +242,17 @@ pub async fn run_op2(ctx: &Ctx, op: AOp, info: &Rc<TaskInfo>, handle: Handle) {
                     }
                 }
                 Some((_, Chan::UnclaimedReceiver(u, tag))) => {
-                    let r = blocked(info, "UnclaimedReceiver::claim", true, u.claim(1 + op.b % 16)).await;
+                    let r = if op.d % 8 == 7 && !ctx.no_cancel.get() {
+                        match CancelAfter::new(u.claim(1 + op.b % 16), 1 + (op.d >> 3) % 2).await {
+                            Some(r) => r,
+                            None => {
+                                ctx.probe("claim-cancelled");
+                                return;
+                            }
+                        }
+                    } else {
+                        blocked(info, "UnclaimedReceiver::claim", true, u.claim(1 + op.b % 16)).await
+                    };
                     match r {
                         Ok(rcv) => {
                             ctx.probe("claim-ok");
